@@ -790,7 +790,7 @@ class NonlinearSolver(Solver):
         stalled = False
         stall_count = 0
         if stall_limit > 0:
-            stall_norm = norm0
+            stall_norm = norm / norm0 if stall_tol_type == 'rel' else norm
 
         force_one_iteration = system.under_complex_step
 
@@ -857,15 +857,14 @@ class NonlinearSolver(Solver):
         if np.isinf(norm) or np.isnan(norm):
             self._inf_nan_failure()
 
-        # solver stalled.
-        elif stalled:
-            msg = (f"Solver '{self.SOLVER}' on system '{system.pathname}' stalled after "
-                   f"{self._iter_count} iterations.")
-            self.report_failure(msg)
-
-        # Solver hit maxiter without meeting desired tolerances.
+        # Solver stalled or hit maxiter without meeting desired tolerances.
         elif norm > atol and norm / norm0 > rtol:
-            self._convergence_failure()
+            if stalled:
+                msg = (f"Solver '{self.SOLVER}' on system '{system.pathname}' stalled after "
+                       f"{self._iter_count} iterations.")
+                self.report_failure(msg)
+            else:
+                self._convergence_failure()
 
         # Solver converged
         elif print_flag:
